@@ -81,3 +81,14 @@ Theorem C01_prim_ops_flavours : forall r1 r2, In r1 prim_ops -> In r2 prim_ops -
     fl (run_w p k1 r1 a c) = fl (run_w p k2 r2 a c).
 Proof. exact prim_ops_flavour_independent. Qed.
 Print Assumptions C01_prim_ops_flavours.
+
+(* ... and every regenerated READER row (TInputProtocol / TAsyncInputProtocol methods of the three protocols that the
+   translator lowers: all of binary / binary-LE except read_message_begin; the stateless compact methods) is the reader
+   primitive of Proto.v / Async.v selected by its method name, on every reader state *)
+From PV Require Import Thrift.Async Thrift.PrimOpsRSem.
+Theorem C01_prim_ops_read : forall r, In r prim_ops -> r_class r = "read"%string ->
+  forall p, pk_of (r_proto r) = Some p ->
+  exists m, rspec (seqb (r_flavour r) "async") p (r_method r) = Some m /\
+    forall s, run_r (seqb (r_flavour r) "async") p r s = m s.
+Proof. exact prim_ops_model_read. Qed.
+Print Assumptions C01_prim_ops_read.
